@@ -190,6 +190,8 @@ pub(crate) unsafe fn abandon_links<T>(this: &Rc<T>) {
     // count of the allocation is about to become zero, so the uninhabited
     // `MaybeUninit` is never read again.
     let links = mem::replace(&mut (*rcbox).links, MaybeUninit::uninit());
+    #[cfg(cactusref_verif)]
+    crate::verif::ev(crate::verif::Event::MoveOutLinks(rcbox as usize));
     drop(links.assume_init());
 }
 
